@@ -5,3 +5,10 @@ add(
     "Trusts CPython, Hypothesis, and the single-level behaviour of each base interpretation measured at depth 1; sequential process only.",
     "DESIGN.md section 3 C17",
 )
+add(
+    "C01",
+    "property-based testing: typed AST generators (Hypothesis + seed-expanded) vs. an independent point-wise reference evaluator, exhaustive over each case's integer input space; AST shrinker",
+    "Bounded exploration: thousands (quick) to >100k (thorough) generated expressions over every constructor named in the statement; each is built eagerly through the public API and compared with a ~400-line numpy/Python reference evaluator at EVERY assignment of its integer inputs (and 3 grid points per real input); completion is additionally demanded on the core fragment.",
+    "Trusts CPython, numpy, Hypothesis and vf/lang.py (reference evaluator). Tolerance 1e-8+1e-6 rel. Cases whose oracle leaves an op's numeric domain are discarded and counted.",
+    "DESIGN.md section 3 C01",
+)
